@@ -198,6 +198,16 @@ def genOp (maxObjs : Nat) : G Unit := do
         emit s!"realloc {par} {o.1} {sz}{← failW}"
   else if k < 93 then
     if let some o ← pickObj then emit s!"dtor {o.1} {← pick dtorWords}"
+  else if k < 95 then
+    -- the autofree context: ask for it (fresh after it was freed), sometimes leave the process
+    let g ← get
+    if ← chance 1 4 then emit "exit"
+    else
+      let isLive := (g.d.autofree.filter fun i => g.d.s.live i).isSome
+      if isLive then emit s!"autofree {g.nextSlot}"
+      else if g.nextSlot < maxObjs + 2 then
+        modify fun g => { g with nextSlot := g.nextSlot + 1 }
+        emit s!"autofree {g.nextSlot}"
   else if k < 97 then
     -- memory limits belong to the c19 profile (property C19); here: one more unlink through
     -- the NULL context
